@@ -19,7 +19,9 @@ try:
     env = f"PYTHONPATH={wt}:/verif/shims PYTHONHASHSEED=0"
     r0 = sh(f"cd {wt} && {env} timeout 300 /venv/bin/python {src}/demo.py")
     report["demo_original_exit"] = r0.returncode
-    ap = sh(f"git -C {wt} apply {src}/patch.diff")
+    patch = f"{src}/patch.rebased.diff" if os.path.exists(f"{src}/patch.rebased.diff") else f"{src}/patch.diff"
+    report["patch_used"] = os.path.basename(patch)
+    ap = sh(f"git -C {wt} apply {patch}")
     report["patch_applies"] = ap.returncode == 0
     for _try in range(3):
         t = sh(f"cd {wt} && /venv/bin/python -m pytest -q -p no:cacheprovider --timeout=900 --color=no --continue-on-collection-errors 2>&1 | tail -5")
